@@ -18,6 +18,7 @@ func init() {
 func runC06(c *Ctx) {
 	L := c.L
 	c.checkConfigWriters("container-config")
+	c.checkNamedRowsOnly("named-rows-only")
 	L.Trusts("go/constant evaluation of the composite literal; the IUPAC oracle in sa/rules/refdata.go")
 	c.checkComplementTable()
 	c.checkComplementFunc()
